@@ -1,2 +1,124 @@
-From PK Require Import Session.Framing Session.Session Session.SessionCases.
-Theorem c12_placeholder : True. Proof. exact I. Qed.
+(* C12 - the session answers any bytes safely, once, and keeps going.
+   Model: Session/Framing.v (receive loop), Session/Encode.v (error response), Session/Session.v (handle/serve);
+   the request parser and the engine are parameters of every theorem below (universally quantified). *)
+From Coq Require Import ZArith List Bool String.
+From PK Require Import Base.Bytes Base.Prim Session.Framing Session.FramingProofs Session.Encode Session.EncodeProofs
+                       Session.Session Session.SessionProofs Session.Toy.
+Import ListNotations.
+Open Scope Z_scope.
+
+(* 1. Framing does not depend on how the transport chunks the byte stream: any two chunkings (no empty chunk: an
+      empty read is the peer closing) of the same stream give the same frames, namely those of the chunk-free
+      specification `frames_stream` (8-byte header, big-endian length at offset 4).  Unbounded: all streams, all
+      chunkings, all frame sizes; the 4096-byte receive buffer plays no role. *)
+Theorem framing_chunk_independent : forall (stream : bytes) (cs1 cs2 : list bytes),
+  concat cs1 = stream -> concat cs2 = stream -> Forall nonempty cs1 -> Forall nonempty cs2 ->
+  fst (fst (frames_conn cs1)) = fst (fst (frames_conn cs2)) /\ fst (fst (frames_conn cs1)) = frames_stream stream.
+Proof. exact framing_chunk_independent_lemma. Qed.
+Print Assumptions framing_chunk_independent.
+Example framing_chunk_independent_ex :
+  let stream := [66;0;120;1;0;0;0;2;9;9; 66;0;120;1;0;0;0;0; 66;0;120] in
+  fst (fst (frames_conn [[66];[0;120;1;0;0];[0;2;9;9;66;0;120;1;0];[0;0;0;66;0;120]])) = frames_stream stream
+  /\ frames_stream stream = [[66;0;120;1;0;0;0;2;9;9]; [66;0;120;1;0;0;0;0]].
+Proof. vm_compute. split; reflexivity. Qed.
+
+Section AnyParserAnyEngine.
+  Variable request : Type.
+  Variable parse : bytes -> option request.
+  Variable rq_version : request -> Z * Z.
+  Variable estate : Type.
+  Variable engine : request -> identity -> estate -> eresult * estate.
+  Notation handle := (handle request parse rq_version estate engine).
+  Notation serve := (serve request parse rq_version estate engine).
+
+  (* 2. Exactly one step per frame, and (given a clock and version numbers that fit their TTLV fields) every step is
+        one `sendall`: nothing but the end of the stream leaves the loop.  [loop_total] *)
+  Theorem one_response_per_frame : forall g fs st,
+    length (fst (serve g fs st)) = length fs.
+  Proof. exact (serve_length request parse rq_version estate engine). Qed.
+
+  Theorem loop_total :
+    (forall rq, ver_ok (rq_version rq)) ->
+    (forall rq id st enc max ver st', engine rq id st = (EResp enc max ver, st') -> ver_ok ver) ->
+    forall g fs st, clock_ok (now g) -> Forall (fun s => exists b, out s = Sent b) (fst (serve g fs st)).
+  Proof.
+    intros H1 H2 g fs st Hc. exact (serve_all_sent request parse rq_version estate engine H1 H2 g fs Hc st).
+  Qed.
+
+  (* 3. A request that cannot be decoded is never executed: the engine state is untouched, the engine is not
+        entered, and the answer is the INVALID_MESSAGE error at version 1.0 (AUTHENTICATION_NOT_SUCCESSFUL when
+        the certificate is refused before parsing is even attempted). *)
+  Theorem undecodable_not_executed : forall g f st,
+    parse f = None ->
+    handle g f st =
+    ({| out := match cert_checks g with
+               | None => error g (1, 0) R_AUTHENTICATION_NOT_SUCCESSFUL MSG_CERT
+               | Some _ => error g (1, 0) R_INVALID_MESSAGE MSG_PARSE
+               end;
+        call := None |}, st).
+  Proof. exact (undecodable_step request parse rq_version estate engine). Qed.
+
+  (* 4. After any run of undecodable requests the next request is served exactly as on the same store without them. *)
+  Theorem next_request_unaffected : forall g bad good st,
+    Forall (fun b => parse b = None) bad ->
+    serve g (bad ++ [good]) st = (fst (serve g bad st) ++ fst (serve g [good] st), snd (serve g [good] st))
+    /\ length (fst (serve g bad st)) = length bad.
+  Proof. exact (next_request_unaffected request parse rq_version estate engine). Qed.
+
+  (* 5. Whenever the encoded response is longer than the effective maximum (the requested maximum response size,
+        whatever its value - zero and negative included - or 1 MiB when none was requested), what is sent is the
+        RESPONSE_TOO_LARGE error at the request's version; otherwise the engine's response goes out unchanged. *)
+  Theorem too_large_replaced : forall g f st c rq id b max ver st',
+    cert_checks g = Some c -> parse f = Some rq -> authenticate c (plugins g) = Some id ->
+    engine rq id st = (EResp (Some b) max ver, st') ->
+    out (fst (handle g f st)) =
+    if (match max with Some m => m | None => 1048576 end) <? zlen b
+    then error g (rq_version rq) R_RESPONSE_TOO_LARGE MSG_TOO_LARGE
+    else Sent b.
+  Proof.
+    intros. erewrite too_large_replaced_lemma by eassumption. destruct max; reflexivity.
+  Qed.
+End AnyParserAnyEngine.
+Print Assumptions one_response_per_frame.
+Print Assumptions loop_total.
+Print Assumptions undecodable_not_executed.
+Print Assumptions next_request_unaffected.
+Print Assumptions too_large_replaced.
+
+(* 6. Every error response the session builds itself is well-formed: it is encodable, has a known size (so the two
+      answers sent without a size comparison are far below 1 MiB), and the primitive decoders of Base.Prim read it
+      back as one failed batch item with the version, time stamp, reason and message it was built from. *)
+Theorem error_response_well_formed : forall v ts reason msg,
+  ver_ok v -> clock_ok ts -> reason_ok reason -> msg_ok msg ->
+  exists b, err_response v ts reason msg = Some b
+    /\ zlen b = 136 + zlen msg + pad_len (zlen msg)
+    /\ dec_err_response b = Some {| ef_version := v; ef_ts := ts; ef_count := 1; ef_status := OPERATION_FAILED;
+                                    ef_reason := reason; ef_msg := msg |}.
+Proof. exact err_response_wf. Qed.
+Print Assumptions error_response_well_formed.
+
+(* ---- the hypotheses are satisfiable by non-trivial states (toy parser/engine of Session/Toy.v) ---- *)
+Example loop_total_ex : ver_ok (1, 2) /\ clock_ok (now toy_cfg) /\
+  map out (fst (toy_serve toy_cfg [[1;2;3]; [66;0]; []; [66]] 0%nat)) <> [] /\
+  length (fst (toy_serve toy_cfg [[1;2;3]; [66;0]; []; [66]] 0%nat)) = 4%nat.
+Proof. repeat split; vm_compute; congruence. Qed.
+
+Example undecodable_not_executed_ex :
+  toy_parse [1;2;3] = None /\ snd (toy_handle toy_cfg [1;2;3] 5%nat) = 5%nat /\ snd (toy_handle toy_cfg [66] 5%nat) = 6%nat.
+Proof. vm_compute. repeat split; reflexivity. Qed.
+
+Example next_request_unaffected_ex :
+  Forall (fun b => toy_parse b = None) [[1]; []; [67; 66]] /\
+  last (fst (toy_serve toy_cfg ([[1]; []; [67; 66]] ++ [[66; 1]]) 0%nat)) {| out := Escaped; call := None |}
+  = fst (toy_handle toy_cfg [66; 1] 0%nat).
+Proof. split; [repeat constructor | vm_compute; reflexivity]. Qed.
+
+Example too_large_replaced_ex :
+  (* call 0 reports a requested maximum of 100 < 300: replaced; call 1 reports none: the 300 bytes go out *)
+  out (fst (toy_handle toy_cfg [66] 0%nat)) = error toy_cfg (1, 2) R_RESPONSE_TOO_LARGE MSG_TOO_LARGE
+  /\ out (fst (toy_handle toy_cfg [66] 1%nat)) = Sent (repeat 7 300)
+  /\ error toy_cfg (1, 2) R_RESPONSE_TOO_LARGE MSG_TOO_LARGE <> Escaped.
+Proof. repeat split; vm_compute; congruence. Qed.
+
+Example error_response_well_formed_ex : ver_ok (1, 0) /\ clock_ok 1600000000 /\ reason_ok R_INVALID_MESSAGE /\ msg_ok MSG_PARSE.
+Proof. repeat split; vm_compute; congruence. Qed.
